@@ -625,9 +625,12 @@ def rp66_documents(ctx, src, k, cap):
     out = io.StringIO()
     mem = None
     raised = None
+    private = True
     try:
         with LogicalFile.LogicalIndex(fp) as li:
-            IndexXML.write_logical_file_sequence_to_xml(li, out, private=True)
+            # with and without the objects of private tables (the tool's -p option): the table entries are there either way
+            private = ctx.sub_rng('index-private', k).random() < 0.5
+            IndexXML.write_logical_file_sequence_to_xml(li, out, private=private)
             mem = {'vr': list(li.visible_record_positions), 'lfs': []}
             for lf in li.logical_files:
                 fas = []
@@ -651,7 +654,7 @@ def rp66_documents(ctx, src, k, cap):
     if doc:
         r1, r2 = check_document(rec, doc, 'index_xml_parses', 'XML index of %s' % src.name, cap, dict(wit, writer='IndexXML', writer_raised=repr(raised)[:200] if raised else None))
         if r1 is not None and raised is None and mem is not None and not zero_frames:
-            check_index(rec, r1, mem, m, cap, wit)
+            check_index(rec, r1, mem, m, cap, dict(wit, index_private=private))
     # ---- HTML summary
     out = io.StringIO()
     raised = None
@@ -714,6 +717,8 @@ def check_index(rec, root, mem, model, cap, wit):
                 bad = 'logical file %d: EFLR entries %r, tables in the file %r' % (i, got[:8], exp[:8])
                 break
             for e, t in zip(eflrs, model.logical_files[i].tables):
+                if t.lr_type >= 128 and not wit.get('index_private', True):
+                    continue        # a private table without -p: the entry is there (counted above), its objects are not written
                 if len([o for o in e if localname(o.tag) == 'Object']) != len(t.objects):
                     bad = 'logical file %d: table %r has %d Object entries for %d objects' % (i, t.set_type, len([o for o in e if localname(o.tag) == 'Object']), len(t.objects))
         fas = [e for e in x.iter() if localname(e.tag) == 'FrameArray']
@@ -782,7 +787,15 @@ def check_index(rec, root, mem, model, cap, wit):
                  'units': ('units',), 'label': ('label',), 'name': ('I',), 'set-name': ('set_name',)}
         missing = None
         nchecked = 0
-        for kind, b in model.strings():
+        def strings_expected():
+            # the objects of private tables (logical record type >= 128) are in the index on request only; their table entry always
+            for lf_ in model.logical_files:
+                for t_ in lf_.tables:
+                    for k_, b_ in t_.strings:
+                        if t_.lr_type >= 128 and not wit.get('index_private', True) and k_ != 'set-name':
+                            continue
+                        yield k_, b_
+        for kind, b in strings_expected():
             s = b.decode('latin-1')
             if not representable(s):
                 continue
